@@ -294,6 +294,36 @@ theorem holds_model (me n honest : Nat) (myKey : Option String) (ev : Option Eve
       | key => simp only [Bool.not_eq_true] at hs; simp [holds, hs]
       | misbehaved => simp only [Bool.not_eq_true] at hs; simp [holds, hs]
 
+/-! ## The member's local view of the group does not matter -/
+
+/-- C05: whatever the node itself marked inactive / disqualified during GJKR (its local view of
+    `gjkrResult.Group`), the fate and the resulting operator list are the same: they depend on
+    the chain-accepted result only.  For all local IA / DQ sets. -/
+theorem fate_independent_of_local_view (me n honest : Nat) (myKey : Option String)
+    (ev : Option Event) (sel : List String) (ia dq ia' dq' : List Nat) :
+    fateThenOperatorsG me n honest myKey ev sel ia dq =
+      fateThenOperatorsG me n honest myKey ev sel ia' dq' := rfl
+
+theorem fateG_eq (me n honest : Nat) (myKey : Option String) (ev : Option Event)
+    (sel : List String) (ia dq : List Nat) :
+    fateThenOperatorsG me n honest myKey ev sel ia dq =
+      fateThenOperators me n honest myKey ev sel := rfl
+
+/-- monitor soundness with a local view: `holds` (which knows nothing of the local view)
+    accepts the model's output for every local view. -/
+theorem holds_model_local (me n honest : Nat) (myKey : Option String) (ev : Option Event)
+    (sel : List String) (ia dq : List Nat) (hn : n ≤ 255) :
+    holds me n honest myKey ev sel (fateThenOperatorsG me n honest myKey ev sel ia dq) = true := by
+  rw [fateG_eq]; exact holds_model me n honest myKey ev sel hn
+
+/-- Non-vacuity: a fate built from the local operating set (`Group.operating`) instead of the
+    member list differs, and the monitor rejects it. -/
+example : (⟨members 5, [4], []⟩ : Group).operating = [1, 2, 3, 5] := by decide
+example : holds 3 5 3 (some "k1") (some ⟨"k1", [2]⟩) ["a", "b", "c", "d", "e"]
+    (.ok ["a", "c", "e"]) = false := by decide
+example : fateThenOperatorsG 3 5 3 (some "k1") (some ⟨"k1", [2]⟩) ["a", "b", "c", "d", "e"] [4] []
+    = .ok ["a", "c", "d", "e"] := by decide
+
 /-! ## Non-vacuity -/
 
 example : fateThenOperators 3 5 3 (some "k1") (some ⟨"k1", [2, 4]⟩) ["a", "b", "c", "d", "e"]
